@@ -446,3 +446,22 @@ def e9(ctx):
     if n == 0:
         raise AnalysisError("_do_get: no response with a body found")
     return obs
+
+
+@rule("C02", "E10", floor=8, kind="S",
+      desc="an ETag is reported with the body / data it belongs to: the query, multiget and listing loops yield name, "
+           "ETag and file of the same iteration (same obligations as C01/H4 on those loops)")
+def e10(ctx):
+    from .common import per_item_obligations
+    return per_item_obligations(ctx, ["xandikos.store.Store._iter_with_filter_indexes", "xandikos.store.Store._iter_with_filter_naive",
+                                      "xandikos.store.git.GitStore.iter_with_etag", "xandikos.store.vdir.VdirStore.iter_with_etag",
+                                      "xandikos.davcommon.MultiGetReporter.report", "xandikos.caldav.CalendarQueryReporter.report",
+                                      "xandikos.carddav.AddressbookQueryReporter.report"])
+
+
+@rule("C02", "E11", floor=1, kind="N",
+      desc="the ETag a report gives for an href is the ETag of the resource at that href (same obligations as C17/M10: "
+           "hrefs and resources are paired through the path table)")
+def e11(ctx):
+    from .c17 import href_pairing_obligations
+    return href_pairing_obligations(ctx)
